@@ -78,12 +78,21 @@ POOL = [
     "search_dates('Il a plu le 12 mars 2020 à Paris', languages=['de', 'fr'], settings={'RELATIVE_BASE': B})",
     "dateparser.parse('17 février 2013', languages=['fr'], settings={'NORMALIZE': False})",
     "dateparser.parse('17 février 2013', languages=['fr'])",
+    # 52.. default-everything calls (the shared module-level parser)
+    "dateparser.parse('12 janvier 2015')",
+    "dateparser.parse('01/02/2003')",
+    "dateparser.parse('3.4.2015 10:30')",
+    "dateparser.parse('13 Dezember 2015')",
+    "dateparser.parse('07-08-09')",
+    "search_dates('on 4 October 1957 and then 2 days ago')",
+    "dateparser.parse('2 days ago')  and None",
 ]
 
 # explicit (predecessor, call) pairs: a failing attempt under a non-MDY locale, then order-sensitive calls
 PAIRS = [(32, 34), (32, 35), (33, 34), (33, 35), (32, 38), (33, 38), (37, 38), (6, 34), (6, 38),
          (36, 2), (36, 3), (32, 0), (33, 0), (41, 42), (41, 43), (44, 45), (45, 44), (46, 47), (47, 46),
-         (48, 49), (49, 48), (50, 51), (51, 50), (21, 25), (25, 48)]
+         (48, 49), (49, 48), (50, 51), (51, 50), (21, 25), (25, 48), (52, 53), (52, 54), (55, 56), (52, 56),
+         (55, 53), (57, 53)]
 
 # parser objects that are kept and reused: (constructor, probe string).  The probe's answer must be
 # the same before and after any other API call, and equal to a fresh process's answer.
